@@ -179,18 +179,19 @@ pub mod iter {
         {
             Map { base: self, map_op }
         }
-        fn map_with<F, T, R>(self, init: T, map_op: F) -> MapInit<Self, Box<dyn Fn() -> T + Send + Sync>, T, F>
+        fn map_with<F, T, R>(self, init: T, map_op: F) -> MapWith<Self, T, F>
         where
             F: Fn(&mut T, Self::Item) -> R + Sync + Send,
-            T: Send + Clone + Sync + 'static,
+            T: Send + Clone,
             R: Send,
         {
-            MapInit { base: self, init: Box::new(move || init.clone()), map_op, cuts: vec![], states: vec![] }
+            MapWith { base: self, item: init, map_op, cuts: vec![], states: vec![] }
         }
-        fn map_init<F, INIT, T, R>(self, init: INIT, map_op: F) -> MapInit<Self, INIT, T, F>
+        fn map_init<F, INIT, T, R>(self, init: INIT, map_op: F) -> MapInit<Self, INIT, F>
         where
             F: Fn(&mut T, Self::Item) -> R + Sync + Send,
             INIT: Fn() -> T + Sync + Send,
+            T: Send,
             R: Send,
         {
             MapInit { base: self, init, map_op, cuts: vec![], states: vec![] }
@@ -235,7 +236,7 @@ pub mod iter {
             }
             Map { base: self, map_op: c::<T> as fn(&'a T) -> T }
         }
-        fn fold<T, ID, F>(self, identity: ID, fold_op: F) -> Fold<Self, T, ID, F>
+        fn fold<T, ID, F>(self, identity: ID, fold_op: F) -> Fold<Self, ID, F>
         where
             F: Fn(T, Self::Item) -> T + Sync + Send,
             ID: Fn() -> T + Sync + Send,
@@ -536,14 +537,26 @@ pub mod iter {
     {
     }
 
-    pub struct MapInit<I, INIT, T, F> {
+    /// a nullary closure and its result type (lets the adaptors keep rayon's own type parameter lists)
+    pub trait InitFn {
+        type Out;
+        fn init(&self) -> Self::Out;
+    }
+    impl<T, FN: Fn() -> T> InitFn for FN {
+        type Out = T;
+        fn init(&self) -> T {
+            self()
+        }
+    }
+
+    pub struct MapInit<I, INIT: InitFn, F> {
         base: I,
         init: INIT,
         map_op: F,
         cuts: Vec<usize>,
-        states: Vec<Option<T>>,
+        states: Vec<Option<INIT::Out>>,
     }
-    impl<I, INIT, T, F, R> ParallelIterator for MapInit<I, INIT, T, F>
+    impl<I, INIT, T, F, R> ParallelIterator for MapInit<I, INIT, F>
     where
         I: ParallelIterator,
         INIT: Fn() -> T + Sync + Send,
@@ -572,12 +585,56 @@ pub mod iter {
             Some((self.map_op)(self.states[seg].as_mut().unwrap(), item))
         }
     }
-    impl<I, INIT, T, F, R> IndexedParallelIterator for MapInit<I, INIT, T, F>
+    impl<I, INIT, T, F, R> IndexedParallelIterator for MapInit<I, INIT, F>
     where
         I: IndexedParallelIterator,
         INIT: Fn() -> T + Sync + Send,
         F: Fn(&mut T, I::Item) -> R + Sync + Send,
         T: Send,
+        R: Send,
+    {
+    }
+
+    pub struct MapWith<I, T, F> {
+        base: I,
+        item: T,
+        map_op: F,
+        cuts: Vec<usize>,
+        states: Vec<Option<T>>,
+    }
+    impl<I, T, F, R> ParallelIterator for MapWith<I, T, F>
+    where
+        I: ParallelIterator,
+        F: Fn(&mut T, I::Item) -> R + Sync + Send,
+        T: Send + Clone,
+        R: Send,
+    {
+        type Item = R;
+        fn prepare(&mut self) {
+            self.base.prepare();
+            self.cuts = sched::segments(self.base.slots());
+            self.states = (0..=self.cuts.len()).map(|_| None).collect();
+        }
+        fn slots(&self) -> usize {
+            self.base.slots()
+        }
+        fn segment_of(&self, s: usize) -> Option<usize> {
+            Some(self.cuts.iter().filter(|&&c| c <= s).count())
+        }
+        fn run_slot(&mut self, slot: usize) -> Option<R> {
+            let seg = self.cuts.iter().filter(|&&c| c <= slot).count();
+            let item = self.base.run_slot(slot)?;
+            if self.states[seg].is_none() {
+                self.states[seg] = Some(self.item.clone());
+            }
+            Some((self.map_op)(self.states[seg].as_mut().unwrap(), item))
+        }
+    }
+    impl<I, T, F, R> IndexedParallelIterator for MapWith<I, T, F>
+    where
+        I: IndexedParallelIterator,
+        F: Fn(&mut T, I::Item) -> R + Sync + Send,
+        T: Send + Clone,
         R: Send,
     {
     }
@@ -674,13 +731,13 @@ pub mod iter {
     impl<A: IndexedParallelIterator, B: IndexedParallelIterator> IndexedParallelIterator for Zip<A, B> {}
 
     /// `fold`: an arbitrary contiguous segmentation, each segment folded in index order from the identity
-    pub struct Fold<I, T, ID, F> {
+    pub struct Fold<I, ID: InitFn, F> {
         base: I,
         identity: ID,
         fold_op: F,
-        out: Vec<Option<T>>,
+        out: Vec<Option<ID::Out>>,
     }
-    impl<I, T, ID, F> ParallelIterator for Fold<I, T, ID, F>
+    impl<I, T, ID, F> ParallelIterator for Fold<I, ID, F>
     where
         I: ParallelIterator,
         F: Fn(T, I::Item) -> T + Sync + Send,
